@@ -15,11 +15,14 @@ CHECKS["C08"] = {
             "(operation outcome) classes observed, e.g. record-failure-in-HalfOpen->Open",
     "explanation": "states = distinct canonical states of the real object reached; transitions = operations applied to a fresh real "
                    "object (each after replaying the shortest path to its source state); every transition is compared with the reference.",
-    "bounds": {"quick": "depth 8, <=3 pending tokens, 12 policies", "thorough": "depth 11, <=3 pending tokens, 12 policies"},
+    "bounds": {"quick": "BFS depth 9, <=3 pending tokens, 12 policies; 3-4 actors, preemption bound 2", "thorough": "BFS depth 13; 3-4 actors, all schedules"},
     "assumptions": ["clock read only through circuitbreaker.nowFunc (harness-owned)",
                     "canonical state covers every field AcquirePermission/RecordResult read"],
     "units": [
         {"name": "circuitbreaker", "pkg": "pkg/util/circuitbreaker", "test": "TestVerifC08", "workers": 12},
+        {"name": "cbsched", "pkg": "pkg/util/circuitbreaker", "test": "TestVerifC08sched", "workers": 6, "gomaxprocs": 1,
+         "inject": [["pkg/util/circuitbreaker", "harness/C08/circuitbreaker"]],
+         "instrument": [{"file": "pkg/util/circuitbreaker/circuitbreaker.go", "imports": {"sync": "vsync"}}]},
     ],
 }
 
